@@ -16,6 +16,12 @@ OUTCOMES = {
     'subfail': {'body': [{'a': 'subtest', 'i': 0, 'do': ['fail']},
                          {'a': 'subtest', 'i': 1, 'do': ['ok']},
                          {'a': 'subtest', 'i': 2, 'do': [{'a': 'error'}]}]},
+    # a skip raised inside a subTest: addSkip arrives mid-test, for the
+    # _SubTest object, and the test goes on
+    'subskip': {'body': [{'a': 'subtest', 'i': 0, 'do': ['skip']},
+                         {'a': 'subtest', 'i': 1, 'do': ['ok']}]},
+    'subskip_fail': {'body': [{'a': 'subtest', 'i': 0, 'do': ['skip']},
+                              {'a': 'subtest', 'i': 1, 'do': ['fail']}]},
     'td_error': {'tearDown': [{'a': 'error'}]},
     'two_events': {'body': [{'a': 'error'}],
                    'tearDown': [{'a': 'error', 'exc': 'KeyError'}]},
@@ -27,8 +33,8 @@ OUTCOMES = {
 }
 SINGLE_EVENT_BAD = ['fail', 'error', 'uxsuccess', 'td_error', 'cleanup_error',
                     'setup_error', 'sysexit']
-MULTI_EVENT = ['subfail', 'two_events', 'fail_cleanup']
-GOOD = ['pass', 'skip_deco', 'skip_setup', 'skip_body', 'xfail']
+MULTI_EVENT = ['subfail', 'two_events', 'fail_cleanup', 'subskip_fail']
+GOOD = ['pass', 'skip_deco', 'skip_setup', 'skip_body', 'xfail', 'subskip']
 
 
 def load_graphs(path):
